@@ -1,5 +1,6 @@
 """C18 — unsafe durability and exposure settings are refused outside benchmark mode."""
 from vlib.mo import *
+import re
 from vlib.runner import KH, run_kani_group, run_mir_obligations
 
 LEVEL = "other"
@@ -91,31 +92,73 @@ def hosts_examined(F):
     return Result("holds", "pilot and production gRPC rules examine server.host; production HTTP rule examines the HTTP host", queries=r.queries, seconds=r.seconds, sample=smp)
 
 
+def validate_decision(F):
+    """The whole accept/reject decision of KyroDbConfig::validate, extracted from its MIR (DECIDES), implies the property's
+    predicate for every value of the safety-relevant settings:
+        Ok  =>  (benchmark  or  (strategy == Learned and fsync != None and snapshot interval != 0 and recovery != BestEffort))
+            and (pilot      =>  auth and rate limiting and protected observability and no fresh start and (TLS or loopback gRPC host))
+            and (production =>  (loopback gRPC host or auth) and (loopback HTTP host or protected observability))
+    Opaque here (decided elsewhere): what the three environment comparisons compare (O18.3/normalised: the normalised
+    name, in the order benchmark / pilot / production), which host each is_loopback_host call examines (O18.3/hosts) and
+    is_loopback_host itself (O18.3/loopback, Kani O18.1)."""
+    from vlib import mirdec as MD
+    from vlib import mirflow as MF
+    fc = FnCheck(F, V)
+    if fc.fn is None:
+        return [fc.missing()]
+    fn = fc.fn
+    vi = {"learned": variant_index("config.rs", "CacheStrategy", "Learned"), "fs_none": variant_index("config.rs", "FsyncPolicy", "None"),
+          "best_effort": variant_index("config.rs", "RecoveryMode", "BestEffort")}
+    fi = {"interval": field_index("config.rs", "PersistenceConfig", "snapshot_interval_mutations"), "fresh": field_index("config.rs", "PersistenceConfig", "allow_fresh_start_on_recovery_failure"),
+          "auth": field_index("config.rs", "AuthConfig", "enabled"), "rl": field_index("config.rs", "RateLimitConfig", "enabled"), "tls": field_index("config.rs", "TlsConfig", "enabled")}
+    if None in vi.values() or None in fi.values():
+        return [Result("inconclusive", "enum variants / struct fields of the configuration not found: %r %r" % (vi, fi))]
+    # the three environment comparisons, in block order, by their call-site tag
+    MF.SITE_TAGS = True
+    try:
+        envs = []
+        for idx in sorted(fn.blocks):
+            b = fn.blocks[idx]
+            if b.cleanup or b.kind != "switch":
+                continue
+            o = MF.origin(fn, b.switch_local)
+            if re.search(ENVCMP, MD._untag(o)):
+                envs.append(o)
+    finally:
+        MF.SITE_TAGS = False
+    if len(envs) != 3:
+        return [Result("inconclusive", "expected 3 environment comparisons in validate, found %d" % len(envs))]
+    kinds = ["ne" if "::ne(" in e else "eq" for e in envs]
+    CFG = r"\(\(\(\*\{arg\(_1: &KyroDbConfig\)\}\)\.\d+: config::"
+    atoms = [("env_bench", ENVCMP, re.escape(envs[0])), ("env_pilot", ENVCMP, re.escape(envs[1])), ("env_prod", ENVCMP, re.escape(envs[2])),
+             ("strategy", r"^discr:" + CFG + r"CacheConfig\)\.\d+: config::CacheStrategy\)$"), ("fsync", r"^discr:" + CFG + r"PersistenceConfig\)\.\d+: config::FsyncPolicy\)$"),
+             ("recovery", r"^discr:" + CFG + r"PersistenceConfig\)\.\d+: config::RecoveryMode\)$"),
+             ("interval", "^" + CFG + r"PersistenceConfig\)\.%d: u64\)$" % fi["interval"]), ("fresh", "^" + CFG + r"PersistenceConfig\)\.%d: bool\)$" % fi["fresh"]),
+             ("auth", "^" + CFG + r"AuthConfig\)\.%d: bool\)$" % fi["auth"]), ("rl", "^" + CFG + r"RateLimitConfig\)\.%d: bool\)$" % fi["rl"]),
+             ("tls", r"^\(" + CFG + r"ServerConfig\)\.\d+: config::TlsConfig\)\.%d: bool\)$" % fi["tls"]),
+             ("obs_protected", r"^call <ObservabilityAuthMode as PartialEq>::ne$", None, "pure"),
+             ("lo_grpc", r"^call (config::)?is_loopback_host\(deref\(&\(\(\(\*\{arg\(_1: &KyroDbConfig\)\}\)\.\d+: config::ServerConfig\)\.\d+: String\)\)\)$", None, "pure"),
+             ("lo_http", r"^call (config::)?is_loopback_host\(call Option::<&str>::unwrap_or\)$", None, "pure")]
+    bench = "(not env_bench)" if kinds[0] == "ne" else "env_bench"
+    pilot = "env_pilot" if kinds[1] == "eq" else "(not env_pilot)"
+    prod = "env_prod" if kinds[2] == "eq" else "(not env_prod)"
+    safe = ("(and (or %s (and (= strategy %d) (distinct fsync %d) (distinct interval 0) (distinct recovery %d))) "
+            "(=> %s (and auth rl obs_protected (not fresh) (or tls lo_grpc))) "
+            "(=> %s (and (or lo_grpc auth) (or lo_http obs_protected))))") % (bench, vi["learned"], vi["fs_none"], vi["best_effort"], pilot, prod)
+    return MD.decides(F, V, "entry", {"ok": OK}, atoms, {"ok": ("=>", safe)},
+                      declare=("env_bench", "env_pilot", "env_prod", "fresh", "auth", "rl", "tls", "obs_protected", "lo_grpc", "lo_http"),
+                      what="KyroDbConfig::validate returns Ok only for configurations the property allows")
+
+
 MOS = [
+    MO("O18.2/decision", "validate: Ok implies the property's whole predicate (durability outside benchmark; pilot and production exposure rules) for every value of the 13 safety-relevant settings — the accept/reject "
+       "decision is extracted from the MIR and compared by z3 (DECIDES)", validate_decision, functions=[("config.rs", "validate")]),
     MO("O18.3/hosts", "validate: the pilot TLS rule and the production gRPC rule decide on the gRPC bind host (server.host); the production HTTP rule decides on the HTTP host (MIR def-use provenance; reachability by z3)",
        hosts_examined, functions=[("config.rs", "validate")]),
     MO("O18.3/normalised", "validate: the environment name is trimmed and lower-cased once and every branch decision (benchmark / pilot / production) is taken on that normalised value", env_normalised,
        functions=[("config.rs", "validate")]),
-    MO("O18.3/durability", "validate: outside benchmark, Ok is reachable only with cache strategy Learned, fsync policy != None, snapshot interval != 0, recovery mode Strict",
-       allof(never(V, OK, assume=[NONBENCH, Arm(r"^discr\(" + FLD(r"\d+: config::CacheConfig\)\.\d+: config::CacheStrategy\)\)$"), {"otherwise"}, name="strategy != Learned")]),
-             never(V, OK, assume=[NONBENCH, Arm(r"^discr\(" + FLD(r"\d+: config::PersistenceConfig\)\.\d+: config::FsyncPolicy\)\)$"), {"0"}, name="fsync_policy == None")]),
-             never(V, OK, assume=[NONBENCH, Arm(r"^Eq\(" + FLD(r"\d+: config::PersistenceConfig\)\.\d+: u64\), const 0_u64\)$"), {"otherwise"}, name="snapshot_interval_mutations == 0")]),
-             never(V, OK, assume=[NONBENCH, Arm(r"^discr\(" + FLD(r"\d+: config::PersistenceConfig\)\.\d+: config::RecoveryMode\)\)$"), {"1"}, name="recovery_mode == BestEffort")])),
-       functions=[("config.rs", "validate")]),
-    MO("O18.3/pilot", "validate: in pilot, Ok is reachable only with auth, rate limiting, protected observability, no fresh start, and TLS or a loopback bind",
-       allof(never(V, OK, assume=[PILOT, Arm(r"^ensure_not\(" + FLD(r"\d+: config::AuthConfig\)\.0: bool\)\)$"), {"otherwise"}, name="auth.enabled == false", nth=0)]),
-             never(V, OK, assume=[PILOT, Arm(r"^ensure_not\(" + FLD(r"\d+: config::RateLimitConfig\)\.0: bool\)\)$"), {"otherwise"}, name="rate_limit.enabled == false")]),
-             never(V, OK, assume=[PILOT, Arm(r"^ensure_not\(call <ObservabilityAuthMode as PartialEq>::ne\)$", {"otherwise"}, name="observability_auth == Disabled", nth=0)]),
-             never(V, OK, assume=[PILOT, Arm(r"^ensure_not\(not\(" + FLD(r"\d+: config::PersistenceConfig\)\.\d+: bool\)\)\)$"), {"otherwise"}, name="allow_fresh_start_on_recovery_failure == true")]),
-             never(V, OK, assume=[PILOT, Arm(r"^\(" + FLD(r"\d+: config::ServerConfig\)\.\d+: config::TlsConfig\)\.0: bool\)$"), {"0"}, name="tls.enabled == false", nth=0),
-                                  Arm(r"^ensure_not\(alt\(call (config::)?is_loopback_host\(.*\) \| const true\)\)$", {"otherwise"}, name="host is not loopback")])),
-       functions=[("config.rs", "validate")]),
-    MO("O18.3/production", "validate: in production a non-loopback gRPC bind requires auth; a non-loopback HTTP bind requires protected observability",
-       allof(never(V, OK, assume=[PROD, Arm(r"^call (config::)?is_loopback_host\(", {"0"}, name="gRPC host not loopback", nth=0),
-                                  Arm(r"^ensure_not\(" + FLD(r"\d+: config::AuthConfig\)\.0: bool\)\)$"), {"otherwise"}, name="auth.enabled == false", nth=1)]),
-             never(V, OK, assume=[PROD, Arm(r"^call (config::)?is_loopback_host\(", {"0"}, name="HTTP host not loopback", nth=1),
-                                  Arm(r"^ensure_not\(call <ObservabilityAuthMode as PartialEq>::ne\)$", {"otherwise"}, name="observability_auth == Disabled", nth=1)])),
-       functions=[("config.rs", "validate")]),
+    # (O18.3/durability, /pilot, /production — arm-by-arm NEVER obligations over regex-selected switches — were subsumed by the
+    #  value-level O18.2/decision and removed: on a benign re-formulation of a test they went inconclusive)
     MO("O18.3/loopback", "is_loopback_host: true only for ::1, localhost or a 127. prefix of the trimmed, unbracketed, zone-stripped, lower-cased host; empty is false",
        allof(only_via("config::is_loopback_host", stmt(r"^_0 = const true;$", name="return true"), Arm(r"^call core::str::<impl str>::is_empty$", {"0"}, name="host not empty")),
              lambda F: FnCheck(F, "config::is_loopback_host").reachable(call(r"to_ascii_lowercase\(", name="to_ascii_lowercase")),
